@@ -61,7 +61,7 @@ package flamego
 //@   loop 0 decreases i + 1
 
 //@ func (*responseWriter).WriteHeader
-//@   props C13 C05
+//@   props C13 C05 C17
 //@   requires rwInv(w)
 //@   requires 100 <= s && s <= 999
 //@   modifies w.status, w.writeHeaderOnce.fired, w.beforeOnce.fired, w.hookCalls, w.hookOrder, w.hdrAtHooks, w.nHooksRun,
@@ -75,7 +75,9 @@ package flamego
 //@   ensures old(w.status) != 0 ==> w.status == old(w.status) && w.ResponseWriter.hdrCount == old(w.ResponseWriter.hdrCount) && w.hookCalls == old(w.hookCalls)
 
 //@ func (*responseWriter).Write
-//@   props C13 C05
+//@   props C13 C05 C17
+// (C17: what a renderer writes reaches the underlying writer verbatim, for every status; only HEAD drops the body)
+//@   ensures[C17] w.method != "HEAD" ==> w.ResponseWriter.lastWrite == bytes(b)
 //@   requires rwInv(w)
 //@   modifies w.status, w.size, w.writeHeaderOnce.fired, w.beforeOnce.fired, w.hookCalls, w.hookOrder, w.hdrAtHooks, w.nHooksRun,
 //@            w.ResponseWriter.hdrCount, w.ResponseWriter.hdrSent, w.ResponseWriter.firstStatus, w.ResponseWriter.bodyAtHdr, w.ResponseWriter.ctAtHdr, w.ResponseWriter.bodyBytes, w.ResponseWriter.lastWrite
@@ -159,7 +161,7 @@ package flamego
 //@   ensures old(c.(*context).responseWriter.isWritten) ==> c.(*context).responseWriter.isWritten
 
 //@ func (*context).run
-//@   props C03 C05 C04
+//@   props C03 C05 C04 C15
 //@   skip typeassert nil@call:handleReturn
 //@   call Invoke#0 as handlerCallback(c, h)
 //@   requires ctxInv(c)
@@ -182,8 +184,9 @@ package flamego
 //@   loop 0 invariant c.started == pre(c.started) || !c.responseWriter.isWritten
 //@   loop 0 decreases len(c.handlers) + 1 - c.index
 
+// (C15: Recovery relies on Next() running the remainder of the chain - action included - inside the call)
 //@ func (*context).Next
-//@   props C03 C05
+//@   props C03 C05 C15
 //@   requires ctxInv(c)
 //@   modifies c.index, c.started, c.responseWriter.isWritten, c.request.Request
 //@   panics true
@@ -461,6 +464,15 @@ package flamego
 //@   ensures r.responseWriter.ctAtHdr == "text/plain; charset=" + r.opts.Charset
 //@   ensures r.responseWriter.lastWrite == s
 
+// the middleware: every request gets a renderer of its own, bound to this request's response writer and the normalised options
+//@ func Renderer$2
+//@   props C17 C05
+//@   requires c != nil
+//@   modifies *
+//@   panics true
+//@   assert[C17,C05] before MapTo#0: fresh(r) && r.responseWriter == ctxWriter(c)
+//@   assert[C17] before MapTo#0: r.opts.Charset == opt.Charset && r.opts.JSONIndent == opt.JSONIndent && r.opts.XMLIndent == opt.XMLIndent
+
 // option defaults
 //@ func Renderer$1
 //@   props C17
@@ -522,8 +534,14 @@ package flamego
 
 //@ trusted flamego.Env() r
 //@   pure
-//@ trusted flamego.Recovery$3(skip) r
-//@   pure
+// the helpers of the stack trace run inside the deferred function: they must not panic themselves
+//@ func Recovery$1
+//@   props C15
+//@ func Recovery$2
+//@   props C15
+//@   assumes len(slash) >= 1 && len(dot) >= 1
+//@ func Recovery$3
+//@   props C15
 
 // The handler: whatever c.Next() does (including a panic at any depth), the handler itself returns normally.
 //@ iface Context.Next(this)
